@@ -48,6 +48,16 @@
 (*   cvotes : certificate votes, as votes plus ls = the list the entry's   *)
 (*            VoterIdx was taken from (1 certificate set, 2 stake set)     *)
 (*   cfidx  : RoundIndex inside the Certificate field                      *)
+(*   lb     : 1 = the look-back validator trie cannot be read on this node *)
+(*            (pruned / fast-synced): the chain-based entry points must    *)
+(*            refuse the header, never measure it against another set      *)
+(* Further fixture fields: bls (FALSE: a protocol version with EnableBls = *)
+(* false: every vote carries its own ECDSA signature, the voter is the key *)
+(* recovered from it, there is no aggregate); hasCurrent / useat / uidx /  *)
+(* spos: the CURRENT validator set of the chain (the look-back members     *)
+(* plus a newcomer, validator NV+1, registered after the look-back block)  *)
+(* with its seat table and list positions; precommit entries with ls = 3   *)
+(* were built against that current set.                                    *)
 (***************************************************************************)
 EXTENDS Integers, Sequences, FiniteSets, TLC, Json
 
@@ -89,7 +99,9 @@ Quorum(T) == (T * 685) \div 1000
 SeatX(F, X, v, T, i, s, d) == IF X.cert THEN F.cseat[v][ThIdx(F, T)][i][s][d] ELSE F.seat[v][ThIdx(F, T)][i][s][d]
 ValsX(F, X) == IF X.cert THEN F.cvals ELSE F.vals
 \* the validator the entry NAMES: the one at the listed index of the look-back list of this vote set (0: index outside the list)
-Named(F, X, x) == IF ~Member(F, x.v) THEN 0
+Named(F, X, x) == IF ~X.cert /\ x.ls = 3          \* index taken from the CURRENT set's list: whoever sits there in the look-back list
+                  THEN (LET p == F.uidx[x.v] IN IF p <= NV(F) THEN F.spos[p] ELSE 0)
+                  ELSE IF ~Member(F, x.v) THEN 0
                   ELSE IF ~X.cert THEN x.v
                   ELSE F.cpos[IF x.ls = 2 THEN F.sidx[x.v] ELSE F.cidx[x.v]]
 \* whose key made the proof
@@ -142,18 +154,42 @@ AggVerifies(X, pubs) ==
                                          \* encoding of the point at infinity as aggregate): the verifier PANICS -- no acceptance
    /\ \A t \in elems : Occ(sb, t) = Occ(need, t)
 
+\* the loop of verifyVotes when the protocol version has EnableBls = FALSE: the voter is the key RECOVERED from the entry's ECDSA
+\* signature over this payload; an empty signature is skipped; a recovered address that is no validator gives validator = nil and
+\* validator.Stake is dereferenced (PANIC); duplicates are suppressed by address; there is no aggregate
+RECURSIVE ScanE(_, _, _, _, _)
+ScanE(F, X, n, seen, count) ==
+   IF n > Len(X.votes) THEN [ok |-> TRUE, count |-> count]
+   ELSE LET x == X.votes[n] IN
+        IF x.sb = 0 THEN ScanE(F, X, n + 1, seen, count)
+        ELSE LET u == IF x.sb = 1 /\ x.sr = 1 /\ x.si = X.idx /\ Member(F, x.v) THEN x.v ELSE 0 IN
+             IF u = 0 THEN [ok |-> FALSE, count |-> 0]
+             ELSE IF u \in seen THEN ScanE(F, X, n + 1, seen, count)
+             ELSE LET binds == x.pb # "corrupt" /\ Prover(F, x) = u /\ x.ci = X.idx /\ x.cs = X.step /\ x.cd = X.sd
+                      jc    == SeatX(F, X, u, X.decl, X.idx, X.step, X.sd) IN
+                  IF binds /\ jc = -1 THEN [ok |-> FALSE, count |-> 0]
+                  ELSE IF binds /\ jc > 0 /\ jc = x.j THEN ScanE(F, X, n + 1, seen \cup {u}, count + x.j)
+                  ELSE ScanE(F, X, n + 1, seen, count)
+
 CodeVotes(F, X) ==
-   LET r == Scan(F, X, 1, {}, 0, <<>>) IN
-   /\ r.ok
-   /\ r.count >= QuorumX(X, X.decl)        \* OverThreshold(count, declared threshold, isPos)
-   /\ AggVerifies(X, r.pubs)
+   IF F.bls
+   THEN LET r == Scan(F, X, 1, {}, 0, <<>>) IN
+        /\ r.ok
+        /\ r.count >= QuorumX(X, X.decl)        \* OverThreshold(count, declared threshold, isPos)
+        /\ AggVerifies(X, r.pubs)
+   ELSE LET r == ScanE(F, X, 1, {}, 0) IN
+        r.ok /\ r.count >= QuorumX(X, X.decl)
 
 \* the certificate branch: only at certificate rounds; header.Certificate must decode
 CodeCert(F, h, kind) == h.cf = "list" /\ CodeVotes(F, VX(F, h, kind))
 
-CodeAccepts(F, h) == /\ CodeProposer(F, h)
-                     /\ CodeVotes(F, VX(F, h, "pre"))
-                     /\ F.certRound => CodeCert(F, h, "cert")       \* otherwise header.Certificate is not consulted at all
+\* verifyConsensusFieldMain (what VerifySideChainHeader runs with the readers its caller hands over)
+CodeAcceptsCore(F, h) == /\ CodeProposer(F, h)
+                         /\ CodeVotes(F, VX(F, h, "pre"))
+                         /\ F.certRound => CodeCert(F, h, "cert")       \* otherwise header.Certificate is not consulted at all
+\* VerifySeal / VerifyHeader / VerifyHeaders: getLookBackValReader must be able to open the look-back validator trie
+\* (ErrUnknownLookBackValidators otherwise)
+CodeAccepts(F, h) == h.lb = 0 /\ CodeAcceptsCore(F, h)
 \* VerifyHeader / VerifyHeaders when the chain already stores the honest header at this number: verifyCascadingFields refuses a
 \* header with another hash (ErrExistCanonical); a header with the SAME hash (only fields outside the hash differ) is verified in full
 CodeAcceptsKnown(F, h) == CodeAccepts(F, h) /\ SameHash(F, h)
@@ -192,7 +228,7 @@ VoteClauses == {"VotersEntitled", "DistinctVoters", "CredentialBinds", "Signatur
 ClauseX(kind, c) == IF kind = "pre" THEN ClauseOf(c) ELSE IF kind = "cert" THEN "CertificateQuorum" ELSE "AcCertificateQuorum"
 
 \* the aggregate contains validator u's signature over this block's hash, this round and the round index of the vote set
-SignedOK(X, u) == /\ X.agg = "ok"
+SignedOK(F, X, u) == /\ X.agg = "ok" \/ ~F.bls            \* without BLS there is no aggregate: each entry carries its own signature
                   /\ \E m \in DOMAIN X.votes : X.votes[m].v = u /\ X.votes[m].sb = 1 /\ X.votes[m].sr = 1 /\ X.votes[m].si = X.idx /\ X.votes[m].bk = 0
 
 \* classes of vote entry n (all but "duplicate", which is a class of the list), judged for the validator the entry NAMES
@@ -212,8 +248,8 @@ VLab(F, X, n) ==
    \cup (IF x.ci # X.idx THEN {"wrong_index"} ELSE {})                                 \* "for that round/index/step"
    \cup (IF x.cs # X.step THEN {"wrong_step"} ELSE {})
    \cup (IF x.cd # X.sd THEN {"wrong_round"} ELSE {})
-   \cup (IF X.agg # "ok" THEN {"bad_aggregate"}                                        \* "a valid signature over that block's hash"
-         ELSE IF SignedOK(X, IF u = 0 THEN x.v ELSE u) THEN {}                         \* (of that validator, whichever entry carries it)
+   \cup (IF X.agg # "ok" /\ F.bls THEN {"bad_aggregate"}                                        \* "a valid signature over that block's hash"
+         ELSE IF SignedOK(F, X, IF u = 0 THEN x.v ELSE u) THEN {}                         \* (of that validator, whichever entry carries it)
          ELSE IF x.sb = 0 \/ (u # 0 /\ x.v # u) THEN {"unsigned"}
          ELSE (IF x.sb # 1 THEN {"wrong_block"} ELSE {})
               \cup (IF x.bk # 0 THEN {"retired_key"} ELSE {})
